@@ -298,6 +298,101 @@ pub fn build(long_impl: bool, w: usize, p: &[u8], tb: &Tables) -> Mx {
     }
 }
 
+/// build from an existing (possibly reused and re-configured) builder object
+pub fn build_from(b: &MyersBuilder, long_impl: bool, w: usize, p: &[u8]) -> Mx {
+    match (long_impl, w) {
+        (false, 8) => Mx::S8(b.build::<u8, _, _>(p)),
+        (false, 16) => Mx::S16(b.build::<u16, _, _>(p)),
+        (false, 32) => Mx::S32(b.build::<u32, _, _>(p)),
+        (false, _) => Mx::S64(b.build_64(p)),
+        (true, 8) => Mx::L8(b.build_long::<u8, _, _>(p)),
+        (true, 16) => Mx::L16(b.build_long::<u16, _, _>(p)),
+        (true, 32) => Mx::L32(b.build_long::<u32, _, _>(p)),
+        (true, _) => Mx::L64(b.build_long_64(p)),
+    }
+}
+
+/// A MyersBuilder that lives through several builds, with the list of calls made on it so far
+/// (the list is what the run headers record: the specification evaluates every matcher under
+/// the builder state at build time - per byte the LAST ambig() call counts).
+pub struct BuilderHistory {
+    pub builder: MyersBuilder,
+    pub calls: Tables,
+}
+
+impl BuilderHistory {
+    pub fn new() -> BuilderHistory {
+        BuilderHistory { builder: MyersBuilder::new(), calls: Tables::default() }
+    }
+    pub fn ambig(&mut self, s: u8, eq: &[u8]) {
+        self.builder.ambig(s, eq.iter());
+        self.calls.ambig.push((s, eq.to_vec()));
+    }
+    pub fn wildcard(&mut self, w: u8) {
+        self.builder.text_wildcard(w);
+        self.calls.wild.push(w);
+    }
+}
+
+/// stage s (0..4) of the standard re-configuration history of one builder
+pub fn builder_stage(h: &mut BuilderHistory, stage: usize) {
+    match stage {
+        0 => {
+            h.ambig(b'N', b"AC");
+            h.ambig(b'R', b"AG");
+        }
+        1 => h.ambig(b'N', b"ACGT"), // widened after a matcher was built
+        2 => {
+            h.ambig(b'N', b"G"); // narrowed
+            h.wildcard(b'*');
+        }
+        _ => {
+            h.ambig(b'R', b""); // R matches only itself again
+            h.ambig(b'N', b"ACGT");
+        }
+    }
+}
+
+/// pattern over ACGT with N (and R) placed on the first rows of the blocks of width w and at
+/// random places; texts with occurrences in which every N / R position carries a random base
+pub fn ambig_pattern_and_texts(rng: &mut Rng, m: usize, w: usize) -> (Vec<u8>, Vec<Vec<u8>>) {
+    let mut p = rng.seq(m, b"ACGT");
+    let mut i = 0;
+    while i < m {
+        p[i] = b'N';
+        if i + 1 < m && rng.coin() {
+            p[i + 1] = b'R';
+        }
+        i += w;
+    }
+    let extra = rng.below(m as u64) as usize;
+    p[extra] = if rng.coin() { b'N' } else { b'R' };
+    let mut texts = vec![];
+    for ti in 0..3 {
+        let pre = rng.below(6) as usize;
+        let mut t = rng.seq(pre, b"ACGT");
+        for rep in 0..2 {
+            for &c in p.iter() {
+                let mut c2 = if c == b'N' || c == b'R' { *rng.pick(b"ACGT") } else { c };
+                if ti == 2 && rng.below(9) == 0 {
+                    c2 = b'*';
+                }
+                t.push(c2);
+            }
+            if rep == 0 {
+                let gap = rng.below(4) as usize;
+                t.extend(rng.seq(gap, b"ACGTN"));
+            }
+        }
+        if ti == 1 {
+            let j = rng.below(t.len() as u64) as usize;
+            t[j] = *rng.pick(b"ACGT");
+        }
+        texts.push(t);
+    }
+    (p, texts)
+}
+
 /// `$s` is bound to the simple matcher (distance type u8), `$l` to the block-based one.
 #[allow(unused_macros)]
 macro_rules! on_myers {
